@@ -185,8 +185,9 @@ var observer = []uint8{
 
 const observerEntry1 = 27
 
-// with a trap address: INX; STA $7F00; INY; INY; STA $7F00; NOP; STX $7F00; LDX #1; INC $7EFF,X; BRK
-var trapObserver = []uint8{0xE8, 0x8D, 0x00, 0x7F, 0xC8, 0xC8, 0x8D, 0x00, 0x7F, 0xEA, 0x8E, 0x00, 0x7F, 0xA2, 0x01, 0xFE, 0xFF, 0x7E, 0x00}
+// with a trap address: INX; STA $7F00; INY; INY; STA $7F00; NOP; STX $7F00; LDX #1; STY $7F00; BRK
+// (plain stores only: what a read-modify-write instruction sends to a trap is C10's business)
+var trapObserver = []uint8{0xE8, 0x8D, 0x00, 0x7F, 0xC8, 0xC8, 0x8D, 0x00, 0x7F, 0xEA, 0x8E, 0x00, 0x7F, 0xA2, 0x01, 0x8C, 0x00, 0x7F, 0x00}
 
 func apiCase(r *rng.R, dir string) string {
 	model := r.Intn(2)
